@@ -194,6 +194,7 @@ func (n *node) RouteSendAlias(from gen.PID, to gen.Alias, options gen.MessageOpt
 	// check if this message should be delivered to the meta process
 	if value, found := p.metas.Load(to); found {
 		m := value.(*meta)
+		lib.VerifPoint("meta.push", m)
 		if ok := m.main.Push(qm); ok == false {
 			return gen.ErrMetaMailboxFull
 		}
@@ -556,6 +557,7 @@ func (n *node) RouteCallAlias(from gen.PID, to gen.Alias, options gen.MessageOpt
 	// check if this request should be delivered to the meta process
 	if value, found := p.metas.Load(to); found {
 		m := value.(*meta)
+		lib.VerifPoint("meta.push", m)
 		if ok := m.main.Push(qm); ok == false {
 			return gen.ErrMetaMailboxFull
 		}
